@@ -11,6 +11,7 @@ import (
 	_ "verif/harness/c07"
 	_ "verif/harness/c08"
 	_ "verif/harness/c09"
+	_ "verif/harness/c10"
 
 	"github.com/sdcio/yang-parser/verifrt"
 )
